@@ -26,7 +26,9 @@ class FakeSocket:
         self.rng, self.log = rng, log
 
     def write(self, parts):
-        self.log.append(list(parts))
+        # like aiozmq's transport, the socket keeps the very object it was handed (a message that
+        # cannot be flushed at once is buffered by reference), so later mutation of it shows
+        self.log.append(parts)
 
     async def drain(self):
         for _ in range(self.rng.choice((0, 0, 1, 3))):
